@@ -1084,6 +1084,7 @@ func runC12(c *core.Ctx) core.Meta {
 	checkClosedChannelHasNoSender(c, "R12.28", pd)
 	checkNotifyAfterChange(c, pd)
 	checkEmptyCopyMeasuresHostValue(c, "R12.30")
+	checkListWalkedUnderItsLock(c, "R12.31", pd)
 	return core.Meta{Level: "other",
 		Explanation: "Structural conditions whose absence is the lost wake-up, the data race or the reordering, decided on SSA of amd/driver: capacity of channels targeted by non-blocking sends, the subscribe/test/wait/re-test shape of the drain loop, a guarded-by lockset analysis for five field/mutex pairs, no mixed atomic/plain access, FIFO ownership of the command list, one command at a time per queue (start guard, IsRunning pairing), the frozen inventory of goroutines, selects, engine runs and signal receivers, and the hand-off between runAsync and runEngine (a run request recorded while the engine is flagged as running is honoured before the flag is cleared).",
 		NotDecided:  "liveness under all interleavings (a model-checking question); memory effects between commands",
